@@ -8,13 +8,13 @@ ASSUMPTIONS = ['schedule_next_fetch_attempt, can_dispatch_fetch, note_dispatch_s
 def jobs(tier):
     k = 4 if tier == 'quick' else 6
     # the real process_pending_fetches: quick = one announcement followed by every two-event continuation of ticks / arrivals, and two
-    # announcements in a row; thorough = every sequence of 3 events and every sequence of 4 that starts announcement, tick
+    # announcements in a row; thorough = additionally the 3-event sequences with a second announcement
     def tj(ops):
         name = ''.join('ATC'[o] for o in ops)
         return Job('ticks-' + name, 'node_kern.cpp', 'h_c24_ticks', [len(ops), sum(o * 3 ** i for i, o in enumerate(ops))], defines=['VERIF_REAL_PPF=1'], reach=['announce'], snippets=SN, timeout=3000 if tier == 'quick' else 5000,
                    bounds='events %s (announcement / tick / arrival) with the real process_pending_fetches, 2 peers x 2 chunks, symbolic retry settings, send outcomes, clock and manifest expiry' % name)
     if tier == 'quick': seqs = [(0, 0)] + [(0, a, b) for a in (1, 2) for b in (1, 2)]
-    else: seqs = [(0,) + r for r in itertools.product(range(3), repeat=2)] + [(0, 1) + r for r in itertools.product(range(3), repeat=2)]
+    else: seqs = [(0, 0)] + [(0, a, b) for a in (1, 2) for b in (1, 2)] + [(0, 0, 1), (0, 0, 2), (0, 1, 0), (0, 2, 0)]      # every 3-event sequence with at most two announcements (AAA and longer sequences exceed an hour)
     ticks = [tj(ops) for ops in seqs]
     return [Job('backoff', 'node_kern.cpp', 'h_c24_backoff', [0], reach=['success', 'exhausted', 'backoff'], snippets=SN, timeout=1500, bounds='every setting / attempt count in range'),
             ] + [Job('reannounce-' + ''.join('ADC'[o] for o in ops), 'node_kern.cpp', 'h_c24_reannounce', [3, sum(o * 3 ** i for i, o in enumerate(ops))], reach=['announce'], snippets=SN, timeout=1500, bounds='events %s (announce/dispatch/arrival), 2 peers x 2 chunks' % ''.join('ADC'[o] for o in ops)) for ops in itertools.product(range(3), repeat=3) if ops[0] == 0] + [
